@@ -2,7 +2,7 @@
 # tools/benign_run.sh <workroot> <id...>: runs every claimed check on each <workroot>/<id>/out/v*/patch.diff (in-memory overlay)
 # and prints the violations raised (expected: none for behaviour-preserving refactors).
 root=$1; shift
-PROPS="${PROPS:-C02 C03 C04 C05 C06 C07 C08 C09 C10 C11 C12 C13 C14 C15 C16 C17 C18 C19 C20}"
+PROPS="${PROPS:-C01 C02 C03 C04 C05 C06 C07 C08 C09 C10 C11 C12 C13 C14 C15 C16 C17 C18 C19 C20}"
 OUT=$(mktemp -d)
 for id in "$@"; do for v in $root/$id/out/v*/; do [ -f $v/patch.diff ] || continue; n=$(basename $v); for p in $PROPS; do echo "$id $n $p"; done; done; done |
   xargs -P ${JOBS:-6} -L1 bash -c '/verif/bin/tinkverif mutant $2 '$root'/$0/out/$1/patch.diff > '$OUT'/$0.$1.$2.out 2>&1; echo $? > '$OUT'/$0.$1.$2.rc'
